@@ -7,7 +7,7 @@ W=/tmp/confirm_$ID
 git -C /repo worktree remove --force $W 2>/dev/null; rm -rf $W
 git -C /repo worktree add -q --detach $W HEAD || exit 2
 mkdir -p $W/target
-cp $SEED/tests/demo_seed.rs $W/tests/demo_seed.rs
+cp -r $SEED/tests/demo_seed* $W/tests/
 cd $W
 run_demo() { env $DEMOENV CARGO_NET_OFFLINE=true cargo test --offline --release --test demo_seed > $W/target/demo_$1.log 2>&1; echo $?; }
 RC_WITHOUT=$(run_demo without)
@@ -20,6 +20,7 @@ D=/verif/seeded/$ID
 mkdir -p $D
 cp $SEED/patch.diff $D/patch.diff
 cp $SEED/tests/demo_seed.rs $D/demo_seed.rs
+for x in $SEED/tests/demo_seed_*; do [ -e "$x" ] && cp -r "$x" $D/; done
 python3 - "$SEED" "$D" "$RC_WITHOUT" "$RC_WITH" "$RC_BASE" "$DEMOENV" <<'PY'
 import json, sys, subprocess
 seed, d, rwo, rw, rb, denv = sys.argv[1:7]
